@@ -46,6 +46,15 @@ type foundViolation struct {
 	Scenario *Scenario
 	SimIndex int
 	Count    int
+	// Alts: scenarios of other simulations that showed the same class; tried when the first one does
+	// not replay (a changed tree may make only some worlds - e.g. single-CPU workers - repeatable).
+	Alts []altScenario
+}
+
+type altScenario struct {
+	V        Violation
+	Scenario *Scenario
+	SimIndex int
 }
 
 // Expired reports whether the time budget is used up.
@@ -96,8 +105,20 @@ func (c *CheckCtx) RunScenario(sc *Scenario, simIndex int) (*Outcome, error) {
 		k := v.Key()
 		if f, ok := c.found[k]; ok {
 			f.Count++
+			if simIndex != f.SimIndex && len(f.Alts) < 6 {
+				dup := false
+				for _, a := range f.Alts {
+					if a.SimIndex == simIndex {
+						dup = true
+					}
+				}
+				if !dup {
+					f.Alts = append(f.Alts, altScenario{v, sc, simIndex})
+				}
+			}
 			if simIndex < f.SimIndex {
 				// report the lowest simulation index: independent of worker timing
+				f.Alts = append(f.Alts, altScenario{f.V, f.Scenario, f.SimIndex})
 				f.V, f.Scenario, f.SimIndex = v, sc, simIndex
 			}
 			continue
@@ -287,6 +308,27 @@ func (c *CheckCtx) Finish(wall time.Duration) int {
 			if hasKey(out.Violations, k) {
 				reproduced++
 				firstTry = a == 0
+			}
+		}
+		if reproduced == 0 {
+			// the same class was seen in other simulations: one of those worlds may replay
+			sort.Slice(f.Alts, func(a, b int) bool { return f.Alts[a].SimIndex < f.Alts[b].SimIndex })
+			for _, alt := range f.Alts {
+				if alt.SimIndex == f.SimIndex {
+					continue
+				}
+				for a := 0; a < attempts && reproduced == 0; a++ {
+					out, err := ExecuteScenario(execEnv, alt.Scenario)
+					if err == nil && hasKey(out.Violations, k) {
+						reproduced++
+						firstTry = a == 0
+						f.V, f.Scenario, f.SimIndex = alt.V, alt.Scenario, alt.SimIndex
+						sc = alt.Scenario
+					}
+				}
+				if reproduced > 0 {
+					break
+				}
 			}
 		}
 		if reproduced == 0 {
